@@ -155,8 +155,11 @@ pub fn read_message<'a, T: Read>(bytes: &mut T, buf: &'a mut [u8; 4096])
     }
 
     let len = u16::from_be_bytes([buf[16], buf[17]]) as usize;
+    if len < 19 {
+        return Err("message length below 19");
+    }
     if len > 4096 {
-        println!("jumbo? (len: {len}) {:x?}", &buf[..20]);
+        return Err("message length exceeds 4096");
     }
 
     // including marker+length+type
